@@ -178,6 +178,49 @@ def exportImage (im : ImgIn) (existing : List Bytes) : Except Err (Bytes × Byte
   else
     withName existing im.name (rawExt im.bits im.w im.h) (.ok im.data)
 
+/-- The nine ways `export_image` can go (round 6: the branch selection as a table of its own). -/
+inductive Branch where
+  | undecoded | jpeg | jpx | jbig2 | bmp1 | bmp24 | bmp8 | bytes | raw
+  deriving DecidableEq, Repr
+
+def Branch.toString : Branch → String
+  | .undecoded => "undecoded" | .jpeg => "jpeg" | .jpx => "jpx" | .jbig2 => "jbig2" | .bmp1 => "bmp1"
+  | .bmp24 => "bmp24" | .bmp8 => "bmp8" | .bytes => "bytes" | .raw => "raw"
+
+/-- Which branch `export_image` takes: the `if … elif …` chain in the code's order. -/
+def branchOf (im : ImgIn) : Branch :=
+  if !plausible im.w im.h im.bits then .undecoded
+  else if im.filters.getLast? = some .dct then .jpeg
+  else if im.filters.getLast? = some .jpx then .jpx
+  else if im.filters.contains .jbig2 then .jbig2
+  else if im.bits = 1 then .bmp1
+  else if im.bits = 8 ∧ isRGB im.cs then .bmp24
+  else if im.bits = 8 ∧ isGray im.cs then .bmp8
+  else if im.filters = [.flate] then .bytes
+  else .raw
+
+/-- `(bytes_per_line, bits)` handed to `_save_bmp` in the three bitmap branches (regenerated expressions). -/
+def bmpArgsOf (b : Branch) (im : ImgIn) : Option (Nat × Nat) :=
+  match b with
+  | .bmp1 => some ((bmpBpl0 im.w im.bits).toNat, (bmpDepth0 im.w im.bits).toNat)
+  | .bmp24 => some ((bmpBpl1 im.w im.bits).toNat, (bmpDepth1 im.w im.bits).toNat)
+  | .bmp8 => some ((bmpBpl2 im.w im.bits).toNat, (bmpDepth2 im.w im.bits).toNat)
+  | _ => none
+
+/-- What each branch writes: extension of the file and its content (or the exception). -/
+def exportBranch (b : Branch) (im : ImgIn) (existing : List Bytes) : Except Err (Bytes × Bytes) :=
+  match b with
+  | .undecoded => withName existing im.name extUndecoded (.ok im.data)
+  | .jpeg => withName existing im.name extJpeg (if im.cmykMember then .error .importError else .ok im.data)
+  | .jpx => withName existing im.name [46, 106, 112, 50] (.error .importError)
+  | .jbig2 => .error .unmodelled
+  | .bytes => withName existing im.name extJpeg (.error .importError)
+  | .raw => withName existing im.name (rawExt im.bits im.w im.h) (.ok im.data)
+  | .bmp1 | .bmp24 | .bmp8 =>
+    match bmpArgsOf b im with
+    | some (bpl, depth) => withName existing im.name extBmp (saveBmp depth im.w im.h bpl im.data)
+    | none => .error .unmodelled
+
 /-- A run of exports into one directory: every exported file joins the directory listing; an
     exception aborts the run (as it aborts `extract_text_to_fp`). -/
 def exportSeq : List ImgIn → List Bytes → List (Bytes × Bytes)
